@@ -724,6 +724,81 @@ func init() {
 			th.p.tags[n] = args[1].(*Term)
 			return nil
 		},
+		// verifAssert(cond, id): one assertion query (pc ∧ ¬cond) instead of a fork;
+		// the path continues under cond.
+		"verifAssert": func(th *Thread, fr *frame, fn *ssa.Function, args []Value) Value {
+			c := args[0].(*Term)
+			if c.IsTrue() {
+				return nil
+			}
+			id := args[1].(Str).String()
+			p := th.p
+			if p.violation("assert", id, "", Not(c)) {
+				p.logf("FAIL %s", id)
+				if c.IsFalse() {
+					p.stop("violation:" + id)
+				}
+			}
+			if c.IsFalse() {
+				p.stop("infeasible")
+			}
+			p.assume(c)
+			if k := c.Key(); k != "" && c.Op != OpNot {
+				p.known[k] = true
+			}
+			return nil
+		},
+		// verifCoverIf(cond, id): reachability witness without forking.
+		"verifCoverIf": func(th *Thread, fr *frame, fn *ssa.Function, args []Value) Value {
+			c := args[0].(*Term)
+			id := args[1].(Str).String()
+			p := th.p
+			if c.IsFalse() {
+				return nil
+			}
+			for _, have := range p.covers {
+				if have == id {
+					return nil
+				}
+			}
+			if c.IsTrue() || p.w.solver.CheckWith(c) == Sat {
+				p.covers = append(p.covers, id)
+			}
+			return nil
+		},
+		"verifAnd": func(th *Thread, fr *frame, fn *ssa.Function, args []Value) Value {
+			return And(args[0].(*Term), args[1].(*Term))
+		},
+		"verifOr": func(th *Thread, fr *frame, fn *ssa.Function, args []Value) Value {
+			return Or(args[0].(*Term), args[1].(*Term))
+		},
+		"verifImplies": func(th *Thread, fr *frame, fn *ssa.Function, args []Value) Value {
+			return Or(Not(args[0].(*Term)), args[1].(*Term))
+		},
+		"verifIte": func(th *Thread, fr *frame, fn *ssa.Function, args []Value) Value {
+			return Ite(args[0].(*Term), args[1].(*Term), args[2].(*Term))
+		},
+		"verifIteStr": func(th *Thread, fr *frame, fn *ssa.Function, args []Value) Value {
+			c := args[0].(*Term)
+			a, b := args[1].(Str), args[2].(Str)
+			if c.IsTrue() {
+				return a
+			}
+			if c.IsFalse() {
+				return b
+			}
+			if a.Len() != b.Len() {
+				if th.p.branch(c) {
+					return a
+				}
+				return b
+			}
+			out := make([]*Term, a.Len())
+			for i := range out {
+				out[i] = Ite(c, a.At(i), b.At(i))
+			}
+			return mkStr(out)
+		},
 		"verifSymbolic": func(th *Thread, fr *frame, fn *ssa.Function, args []Value) Value { return TrueT },
 		"verifParam": func(th *Thread, fr *frame, fn *ssa.Function, args []Value) Value {
 			if v, ok := th.p.eng.Cfg.Params[args[0].(Str).String()]; ok {
